@@ -6,6 +6,7 @@
   the struct decoding of the input accepted).  Core Lean only.
 -/
 import VProofs.EventAccessors
+import VProps.C03
 namespace V.AccProofs
 open V V.Json V.GoJson V.Redact V.EventParse V.RedactProofs V.EventProofs V.EventAccessors
 
@@ -750,16 +751,114 @@ theorem addSignature_numbers {sigs : Option JVal} {name kid sig : Bytes} {ns : J
     · cases h
   · cases h
 
-/-- **`Sign()` reaches none of its sites on an accepted event whose `signatures` member `SignJSON` can decode.** -/
-theorem sign_np {H : Bytes → Bytes} {ver text : Bytes} {e : PDU} (h : parseUntrusted H ver text = .ok e)
-    {row : VGen.VersionRow} (I : Inv H ver row e) (hs : sigsDecodable e = true) (name kid sig : Bytes) (site : String) :
-    cls (sign e name kid sig) ≠ .error (.panic site) := by
-  unfold sign
-  rw [if_neg (by simp [hs])]
+/-! ### `signableEventJSON`: the `signatures` member `Sign()` hands on always decodes -/
+
+theorem getLast_eq_lookupExact (o : EventParse.Obj) (k : Bytes) : Sign.getLast o k = lookupExact o k := by
+  induction o with
+  | nil => rfl
+  | cons kv rest ih =>
+    obtain ⟨k', v⟩ := kv
+    rw [lookupExact_eq, lastSome_cons, ← lookupExact_eq, ← ih]
+    simp only [Sign.getLast]
+    cases Sign.getLast rest k <;> rfl
+
+/-- a raw field of the keep struct comes out of the redaction exactly as the event carried it -/
+theorem redactWith_raw {a : Algo} (hT : tablesOk a = true) {kvs rk : EventParse.Obj}
+    (h : redactWith a (.obj kvs) = .ok (.obj rk)) {f : Field} (hf : f ∈ a.fields) (hk : f.kind = .raw) :
+    lookupExact rk f.name = lookupExact kvs f.name := by
+  obtain ⟨hdist, _, _, _⟩ := tablesOk_parts hT
+  have hnd := names_nodup hdist
+  have h' : redactObj a (exactFields a.fields kvs) = .ok (.obj rk) := h
+  obtain ⟨tf, cf, F, hv⟩ := redactObj_ok h'
+  have hr : rk = outputOf a (exactFields a.fields kvs) tf cf := by injection hv
+  have hE : ∀ g, ∀ kv ∈ emitField (exactFields a.fields kvs) (decType tf.name (exactFields a.fields kvs)).val
+      (newContent a.ctable (decType tf.name (exactFields a.fields kvs)).val (decContent cf.name (exactFields a.fields kvs)).val) g,
+      kv.1 = g.name := fun g kv hkv => emitField_name hkv
+  have hsel : sel f.name (outputOf a (exactFields a.fields kvs) tf cf) = _ := sel_flatMap_emit _ hE a.fields hdist f hf
+  rw [hr, output_exact_eq_field hdist hf, lookupField_sel, hsel, ← lookupExact_exactFields hnd kvs hf,
+    ← lookupField_eq_exact (exactFields_wf hdist kvs) hf]
+  simp only [emitField, hk]
+  cases hl : lookupField (exactFields a.fields kvs) f.name <;> simp
+
+/-- the keep struct of every registered version has `signatures` as a raw field -/
+theorem signatures_field {a : Algo} (hS : C03.tableOk a = true) : ∃ g ∈ a.fields, g.name = b!"signatures" ∧ g.kind = .raw := by
+  simp only [C03.tableOk, Bool.and_eq_true] at hS
+  obtain ⟨⟨_, hsig⟩, _⟩ := hS
+  obtain ⟨g, hg, hgp⟩ := List.any_eq_true.mp hsig
+  simp only [Bool.and_eq_true, beq_iff_eq] at hgp
+  exact ⟨g, hg, hgp.1.1, hgp.1.2⟩
+
+/-- **The `signatures` member survives redaction verbatim** (or stays absent), for every event that can be redacted. -/
+theorem redaction_signatures {ver : Bytes} {kvs rk : EventParse.Obj} (h : redactJSON ver (.obj kvs) = .ok (.obj rk)) :
+    lookupExact rk b!"signatures" = lookupExact kvs b!"signatures" := by
+  cases ha : algoOf ver with
+  | none => simp [redactJSON, ha] at h
+  | some a =>
+    obtain ⟨hT, _⟩ := C05.algoOf_ok ha
+    obtain ⟨g, hg, hgn, hgk⟩ := signatures_field (C03.algoOf_tableOk ha)
+    have h' : redactWith a (.obj kvs) = .ok (.obj rk) := by simpa [redactJSON, ha] using h
+    rw [← hgn]
+    exact redactWith_raw hT h' hg hgk
+
+/-- the event without its `signatures` member can be redacted whenever the event can -/
+theorem redactable_without_signatures {ver : Bytes} {kvs rk : EventParse.Obj} (h : redactJSON ver (.obj kvs) = .ok (.obj rk)) :
+    ∃ rk', redactJSON ver (.obj (deleteFirst b!"signatures" kvs)) = .ok (.obj rk') := by
+  cases ha : algoOf ver with
+  | none => simp [redactJSON, ha] at h
+  | some a =>
+    obtain ⟨hT, _⟩ := C05.algoOf_ok ha
+    have hS := C03.algoOf_tableOk ha
+    have h0 : redactWith a (.obj kvs) = .ok (.obj rk) := by simpa [redactJSON, ha] using h
+    have h' : redactObj a (exactFields a.fields kvs) = .ok (.obj rk) := h0
+    obtain ⟨hdist, _, _, _⟩ := tablesOk_parts hT
+    have hnd := names_nodup hdist
+    obtain ⟨r, r', _, hr', _⟩ := C03.redactObj_signatures hT hS (kvs' := exactFields a.fields (deleteFirst b!"signatures" kvs)) (by
+      intro f hf hne
+      rw [sel_wf (exactFields_wf hdist _) hf, sel_wf (exactFields_wf hdist _) hf, lookupExact_exactFields hnd _ hf,
+        lookupExact_exactFields hnd _ hf, lookupExact_deleteFirst_other kvs (fun e => hne e.symm)]) h'
+    have hr2 : redactWith a (.obj (deleteFirst b!"signatures" kvs)) = .ok (.obj r') := hr'
+    exact ⟨r', by simpa [redactJSON, ha] using hr2⟩
+
+theorem getFirst_none_lookupExact {kvs : EventParse.Obj} {k : Bytes} (h : getFirst kvs k = none) : lookupExact kvs k = none := by
+  rw [lookupExact_eq]
+  apply lastSome_none_of_forall
+  intro kv hkv
+  unfold getFirst at h
+  cases hf : kvs.find? (fun kv => kv.1 == k) with
+  | some x => rw [hf] at h; cases h
+  | none =>
+    have := List.find?_eq_none.mp hf kv hkv
+    simpa using this
+
+theorem getFirst_eq_lookupExact : ∀ {kvs : EventParse.Obj} (k : Bytes), (keysOf kvs).Nodup → getFirst kvs k = lookupExact kvs k
+  | [], _, _ => rfl
+  | x :: rest, k, hn => by
+    have hnd := List.nodup_cons.mp (show (x.1 :: keysOf rest).Nodup from hn)
+    rw [lookupExact_eq, lastSome_cons, ← lookupExact_eq, ← getFirst_eq_lookupExact k hnd.2]
+    unfold getFirst
+    by_cases hx : (x.1 == k) = true
+    · simp only [List.find?_cons, hx, Option.map_some]
+      have : rest.find? (fun kv => kv.1 == k) = none := by
+        apply List.find?_eq_none.mpr
+        intro y hy hyk
+        apply hnd.1
+        rw [beq_iff_eq.mp hx, ← beq_iff_eq.mp hyk]
+        exact List.mem_map.mpr ⟨y, hy, rfl⟩
+      rw [this]
+      rfl
+    · have hx' : (x.1 == k) = false := by simpa using hx
+      simp only [List.find?_cons, hx']
+      cases (rest.find? (fun kv => kv.1 == k)).map (·.2) <;> simp
+
+/-- `signWith` reaches none of its sites on an event of a registered version that can be redacted and whose number
+    literals pass the version's canonical-JSON check -/
+theorem signWith_np {ver : Bytes} {row : VGen.VersionRow} {x : PDU} {rk : EventParse.Obj} {b : Bool}
+    (hver : x.ver = ver) (hrow : rowOf ver = some row) (hrk : redactJSON ver (.obj x.obj) = .ok (.obj rk))
+    (hb : enforces row = some b) (hnum : b = true → jNumbersOkMembers x.obj = true)
+    (name kid sig : Bytes) (site : String) : cls (signWith x name kid sig) ≠ .error (.panic site) := by
   unfold signWith
-  rw [I.hver, I.hrow]
+  rw [hver, hrow]
   simp only
-  obtain ⟨rk, hrk⟩ := accepted_redactable h I
   unfold signaturesOf
   rw [hrk]
   simp only
@@ -767,23 +866,82 @@ theorem sign_np {H : Bytes → Bytes} {ver text : Bytes} {e : PDU} (h : parseUnt
   | none => intro hc; cases hc
   | some ns =>
     simp only
-    obtain ⟨b, hb⟩ := (rowFacts I.hrow I.hfmt).enf
-    have hnum : enforcedOkVal row (.obj (setFirst b!"signatures" ns (dedupLast e.obj))) = some true := by
+    have hnumv : enforcedOkVal row (.obj (setFirst b!"signatures" ns (dedupLast x.obj))) = some true := by
       unfold enforcedOkVal
       rw [hb]
       cases b with
       | false => rfl
       | true =>
-        have hobj := (jNumMembers_iff e.obj).mp (accepted_numbers h I hb)
-        have hrkn := (jNumMembers_iff rk).mp (redacted_numbers_ok (accepted_numbers h I hb) hrk)
+        have hobj := (jNumMembers_iff x.obj).mp (hnum rfl)
+        have hrkn := (jNumMembers_iff rk).mp (redacted_numbers_ok (hnum rfl) hrk)
         have hns : jNumbersOk ns = true := addSignature_numbers (by
           intro v hv
           exact hrkn _ (lookupExact_mem hv)) hadd
-        have : jNumbersOkMembers (setFirst b!"signatures" ns (dedupLast e.obj)) = true := by
+        have : jNumbersOkMembers (setFirst b!"signatures" ns (dedupLast x.obj)) = true := by
           rw [jNumMembers_iff]
           exact setFirst_vals (fun v => jNumbersOk v = true) _ _ hns _ (fun kv hkv => hobj kv (dedupLast_mem _ kv hkv))
         simp [jNumbersOk, this]
-    rw [hnum]
+    rw [hnumv]
     intro hc; cases hc
+
+/-- **`Sign()` reaches none of its sites on an accepted event**, whatever its `signatures` member is: a member that
+    `SignJSON` cannot decode is left out by `signableEventJSON`, and the text of an accepted event repeats no member. -/
+theorem sign_np {H : Bytes → Bytes} {ver text : Bytes} {e : PDU} (h : parseUntrusted H ver text = .ok e)
+    {row : VGen.VersionRow} (I : Inv H ver row e) (name kid sig : Bytes) (site : String) :
+    cls (sign e name kid sig) ≠ .error (.panic site) := by
+  obtain ⟨rk, hrk⟩ := accepted_redactable h I
+  obtain ⟨b, hb⟩ := (rowFacts I.hrow I.hfmt).enf
+  have hnumE : b = true → jNumbersOkMembers e.obj = true := fun hbt => accepted_numbers h I (by rw [hb, hbt])
+  have hnd := C04.accepted_keys_nodup h
+  have hsigs := redaction_signatures hrk
+  unfold sign
+  -- what `signableEventJSON` hands on: the event, or the event without its `signatures` member
+  have key : ∃ x rk', x.ver = ver ∧ signable e = x ∧ redactJSON ver (.obj x.obj) = .ok (.obj rk') ∧
+      (b = true → jNumbersOkMembers x.obj = true) ∧ sigsDecodable x = true := by
+    unfold signable
+    cases hg : getFirst e.obj b!"signatures" with
+    | none =>
+      refine ⟨e, rk, I.hver, rfl, hrk, hnumE, ?_⟩
+      unfold sigsDecodable
+      rw [I.hver, hrk]
+      simp only [Sign.readPreserve, Sign.kSignatures, getLast_eq_lookupExact, hsigs, getFirst_none_lookupExact hg]
+      rfl
+    | some v =>
+      have hlv : lookupExact e.obj b!"signatures" = some v := by rw [← getFirst_eq_lookupExact _ hnd]; exact hg
+      simp only
+      by_cases hd : sigValDecodable v = true
+      · rw [if_pos hd]
+        refine ⟨e, rk, I.hver, rfl, hrk, hnumE, ?_⟩
+        unfold sigsDecodable
+        rw [I.hver, hrk]
+        simp only [Sign.readPreserve, Sign.kSignatures, getLast_eq_lookupExact, hsigs, hlv]
+        unfold sigValDecodable at hd
+        cases hdv : Sign.decodeOuterInto Sign.decodeSigVal (some []) v with
+        | none => rw [hdv] at hd; cases hd
+        | some m => rfl
+      · rw [if_neg hd]
+        obtain ⟨rk', hrk'⟩ := redactable_without_signatures hrk
+        have hobj' : ∀ kv ∈ deleteFirst b!"signatures" e.obj, kv ∈ e.obj := deleteFirst_mem _ _
+        refine ⟨{ e with obj := deleteFirst b!"signatures" e.obj }, rk', I.hver, rfl, hrk', ?_, ?_⟩
+        · intro hbt
+          rw [jNumMembers_iff]
+          intro kv hkv
+          exact (jNumMembers_iff e.obj).mp (hnumE hbt) kv (hobj' kv hkv)
+        · have hnone : lookupExact (deleteFirst b!"signatures" e.obj) b!"signatures" = none := by
+            rw [lookupExact_eq]
+            apply lastSome_none_of_forall
+            intro kv hkv
+            have := deleteFirst_removes _ _ hnd kv hkv
+            simpa using this
+          unfold sigsDecodable
+          show (match redactJSON e.ver (.obj (deleteFirst b!"signatures" e.obj)) with
+            | .ok (.obj r) => (Sign.readPreserve r).isSome
+            | _ => true) = true
+          rw [I.hver, hrk']
+          simp only [Sign.readPreserve, Sign.kSignatures, getLast_eq_lookupExact, redaction_signatures hrk', hnone]
+          rfl
+  obtain ⟨x, rk', hxv, hx, hxr, hxn, hxd⟩ := key
+  rw [hx, if_neg (by simp [hxd])]
+  exact signWith_np hxv I.hrow hxr hb hxn name kid sig site
 
 end V.AccProofs
